@@ -149,6 +149,25 @@ CHECKS = {
         design_ref="DESIGN.md section 7, C08",
         note="Model equality is Debug-text equality; open findings are delimited exactly (only the named field may differ).",
         technique="TLC-enumerated universe through the real codegen/attribute-parser round trip; constants compared with a TLA+ operator"),
+    "C12": dict(
+        category="model_checking",
+        text="Refs.tla enumerates, for 11 base definitions with literal slots, EVERY subset of slots replaced by value references x placement "
+             "(same module, sibling by name, sibling by name+OID, OID with a same-named decoy module) x EVERY load order, plus negative "
+             "variants per slot; the real resolver must deliver the canonical model of the literal spelling, or a resolve error for the "
+             "negatives - never a silently substituted bound.",
+        design_ref="DESIGN.md section 7, C12",
+        note="Metamorphic relation of the property (literal spelling = reference); one open finding (kind of a referenced DEFAULT value).",
+        technique="TLA+ enumeration of reference subsets / placements / load orders replayed into the real resolver"),
+    "C14": dict(
+        category="fault_enumeration",
+        text="MC_TokenFaults.tla generates the input space as fault descriptors over lexical items and characters (every single deletion, "
+             "swap, truncation, insertion of 48 vocabulary items / 18 characters at every position), all token soups up to length 2 (3 "
+             "thorough) and simulated 1..4-fault behaviours; each is applied to every seed module and run through the whole front end under "
+             "a watchdog. Only Ok/Err is allowed, the sole sanctioned panic is the documented one; parse errors must carry a token that is "
+             "at its reported location in the input.",
+        design_ref="DESIGN.md section 7, C14",
+        note="The specification supplies inputs and fault histories, not the expected Ok/Err; termination is observed under a watchdog.",
+        technique="TLA+ fault machine enumerated / simulated by TLC, replayed into the real front end in a sandbox"),
 }
 
 NOT_APPLICABLE = {}
